@@ -48,6 +48,22 @@ def accounted : List Accounted := [
   ⟨"PubKeyFromFingerprint", "slice", "mc[br:]", "br <= 0", "Crash.fingerprintSlice_no_panic"⟩,
   ⟨"Service.handleBatchPickup", "slice", "msgs[0:end]", "end < 0", "Crash.batchPickup_no_panic"⟩,
   ⟨"Service.handleBatchPickup", "slice", "msgs[end:]", "end < 0", "Crash.batchPickup_no_panic"⟩,
+  ⟨"context.verifySignature", "slice", "sigData[timestampLength:]", "len(sigData) <= timestampLength", "guarded (signed data of fewer bytes than the timestamp is refused first)"⟩,
+  ⟨"extractRecipientHeaders", "index", "headers[HeaderAlgorithm]", "", "map"⟩,
+  ⟨"extractRecipientHeaders", "index", "headers[HeaderEPK]", "", "map"⟩,
+  ⟨"extractRecipientHeaders", "index", "headers[HeaderKeyID]", "", "map"⟩,
+  ⟨"extractRecipientHeaders", "index", "headers[\"apu\"]", "", "map"⟩,
+  ⟨"extractRecipientHeaders", "index", "headers[\"apv\"]", "", "map"⟩,
+  ⟨"populateServices", "index", "entries[0]", "ok && len(entries) > 0", "guarded"⟩,
+  ⟨"populateServices", "index", "firstEntry[\"accept\"]", "", "map"⟩,
+  ⟨"populateServices", "index", "firstEntry[\"routingKeys\"]", "", "map"⟩,
+  ⟨"populateServices", "index", "firstEntry[\"uri\"]", "", "map"⟩,
+  ⟨"populateServices", "index", "rawService[jsonldID]", "", "map"⟩,
+  ⟨"populateServices", "index", "rawService[jsonldPriority]", "", "map"⟩,
+  ⟨"populateServices", "index", "rawService[jsonldRecipientKeys]", "", "map"⟩,
+  ⟨"populateServices", "index", "rawService[jsonldRoutingKeys]", "", "map"⟩,
+  ⟨"populateServices", "index", "rawService[jsonldServicePoint]", "", "map"⟩,
+  ⟨"populateServices", "index", "rawService[jsonldType]", "", "map"⟩,
   ⟨"getEncodingType", "index", "strings.Split(string(encMessage), \".\")[0]", "", "Split returns at least one part"⟩,
   ⟨"getEncodingType", "index", "strings.Split(string(encodedEnvelope), \".\")[0]", "", "Split returns at least one part"⟩,
   ⟨"getEncodingType", "slice", "encMessage[1 : len(encMessage)-1]",
